@@ -98,6 +98,9 @@ def marker_stream(ctx, res, n):
         host.auth.password = cc.SecureField(method="xor")
         host.auth.tokens = cc.ListField(tok)
         s.hosts = cc.ListField(cc.make_type(host, "Host%d" % i) if rng.random() < 0.5 else host)
+        # configurations held below nested containers: a list of lists of them, a dict of lists of them
+        s.grid = cc.ListField(cc.ListField(tok))
+        s.by_group = cc.DictField(cc.StringField(), cc.ListField(tok))
         # sensitive computed fields, shown only with virtual output
         vmark = marker()
         s.dsn = cc.VirtualField(lambda c, m=vmark: m, sensitive=True)
@@ -136,6 +139,18 @@ def marker_stream(ctx, res, n):
             for t, tk in enumerate(h["auth"]["tokens"]):
                 put(("hosts", j, "auth", "tokens", t, "label"), tk["label"], False)
                 put(("hosts", j, "auth", "tokens", t, "value"), tk["value"], True)
+        grid = [[{"label": marker(), "value": marker()} for _ in range(rng.randint(1, 2))] for _ in range(rng.randint(1, 2))] + [[]]
+        cfg.grid = copy.deepcopy(grid)
+        for r, row in enumerate(grid):
+            for c_, tk in enumerate(row):
+                put(("grid", r, c_, "label"), tk["label"], False)
+                put(("grid", r, c_, "value"), tk["value"], True)
+        groups = {g: [{"label": marker(), "value": marker()}] for g in rng.sample(["ops", "dev", "qa"], rng.randint(1, 2))}
+        cfg.by_group = copy.deepcopy(groups)
+        for g, lst in groups.items():
+            for c_, tk in enumerate(lst):
+                put(("by_group", g, c_, "label"), tk["label"], False)
+                put(("by_group", g, c_, "value"), tk["value"], True)
         cfg.users = copy.deepcopy(users)
         for j, u in enumerate(users):
             put(("users", j, "name"), u["name"], False)
